@@ -5,6 +5,7 @@ package main
 import (
 	"fmt"
 	"go/types"
+	"strconv"
 	"strings"
 
 	"golang.org/x/tools/go/ssa"
@@ -160,7 +161,9 @@ func (e *Exec) havocByType(s *State, t types.Type, prefix string) Val {
 			s.assume(mkAnd(mkCmp(">=", v, mkIntBig(lo)), mkCmp("<=", v, mkIntBig(hi))))
 			return v
 		case u.Info()&types.IsFloat != 0:
-			return e.fresh(prefix, SReal)
+			v := e.fresh(prefix, SReal)
+			s.assume(float64Facts(v))
+			return v
 		case u.Info()&types.IsString != 0:
 			e.freshSeq++
 			return atom(fmt.Sprintf("%s!%d", prefix, e.freshSeq))
@@ -304,7 +307,11 @@ func (e *Exec) model(s *State, c *ssa.Call, fn *ssa.Function, full string, args 
 		}
 		return ret(Text{}.concat(Text{fr}))
 	case "math.Round":
-		return ret(roundHalfAway(args[0].(*T)))
+		return ret(e.num(s).round(args[0].(*T)))
+	case "math.Floor":
+		return ret(toReal(e.num(s).floor(args[0].(*T))))
+	case "math.Ceil":
+		return ret(toReal(e.num(s).ceil(args[0].(*T))))
 	case "(*strings.Builder).WriteString":
 		r := args[0].(Ref)
 		e.sbAppend(s, r, textArg(args[1]))
@@ -429,7 +436,7 @@ func (e *Exec) builtin(s *State, c *ssa.Call, b *ssa.Builtin, args []Val) []Out 
 func (e *Exec) applyContract(s *State, c *ssa.Call, fn *ssa.Function, con *Contract, args []Val) []Out {
 	caller := e.fnName()
 	e.callSeq[con.Func]++
-	callName := fmt.Sprintf("%s/call:%s", caller, con.Func)
+	callName := fmt.Sprintf("%s/call:%s", caller, con.target())
 	env := map[string]Val{}
 	for i, p := range fn.Params {
 		env[p.Name()] = args[i]
@@ -438,8 +445,13 @@ func (e *Exec) applyContract(s *State, c *ssa.Call, fn *ssa.Function, con *Contr
 	for k, rq := range con.clauses("requires") {
 		ctx := &EvalCtx{sp: e.w.specs, env: env, st: s, old: s, ex: e, origin: callName + "/requires"}
 		var sk []*T
+		var defs []*T
 		ctx.skolems = &sk
+		ctx.defs = &defs
 		goal := ctx.evalClause(rq.Expr)
+		for _, d := range defs {
+			s.assume(d)
+		}
 		label := rq.Label
 		if label == "" {
 			label = fmt.Sprint(k)
@@ -509,7 +521,8 @@ func (e *Exec) applyContract(s *State, c *ssa.Call, fn *ssa.Function, con *Contr
 		feasible := true
 		for _, en := range con.clauses("ensures") {
 			var lem []*Lemma
-			ctx := &EvalCtx{sp: e.w.specs, env: env2, st: a.st, old: pre, assume: true, lemmas: &lem, ex: e, origin: callName + "/ensures#" + en.Label}
+			var defs []*T
+			ctx := &EvalCtx{sp: e.w.specs, env: env2, st: a.st, old: pre, assume: true, lemmas: &lem, ex: e, origin: callName + "/ensures#" + en.Label, defs: &defs}
 			t := func() (t *T) {
 				defer func() {
 					if r := recover(); r != nil {
@@ -534,6 +547,9 @@ func (e *Exec) applyContract(s *State, c *ssa.Call, fn *ssa.Function, con *Contr
 				break
 			}
 			a.st.assume(t)
+			for _, d := range defs {
+				a.st.assume(d)
+			}
 			for _, l := range lem {
 				l.Post = a.st.snapshot()
 			}
@@ -613,6 +629,38 @@ func (e *Exec) resultCandidates(s *State, rt types.Type, prefix string, args []V
 	switch u := rt.Underlying().(type) {
 	case *types.Basic:
 		if u.Info()&types.IsString != 0 {
+			// `shape resultK = "a" | "b"`: finite set of possible results (proved
+			// when the callee itself is verified: see verify.go resultShape)
+			for _, sc := range con.clauses("shape") {
+				eq := strings.Index(sc.Raw, "=")
+				if eq < 0 || strings.TrimSpace(sc.Raw[:eq]) != fmt.Sprintf("result%d", k) {
+					continue
+				}
+				// one symbolic result constrained to the listed values (no forking)
+				e.freshSeq++
+				name := fmt.Sprintf("%s!%d", prefix, e.freshSeq)
+				var eqs []*T
+				var dom []string
+				for _, a := range strings.Split(sc.Raw[eq+1:], "|") {
+					sv, err := strconv.Unquote(strings.TrimSpace(a))
+					if err != nil {
+						unsupported("%s: bad result shape literal %s", sc.Pos, a)
+					}
+					dom = append(dom, sv)
+				}
+				atomDomains[name] = dom
+				for _, sv := range dom {
+					t, _ := textEq(atom(name), lit(sv))
+					eqs = append(eqs, t)
+				}
+				s.assume(mkOr(eqs...))
+				for i := range eqs {
+					for j := i + 1; j < len(eqs); j++ {
+						s.assume(mkNot(mkAnd(eqs[i], eqs[j])))
+					}
+				}
+				return []Val{atom(name)}
+			}
 			if _, pure := con.option("pure"); pure {
 				var parts []string
 				for _, a := range args {
